@@ -362,7 +362,7 @@ def eval_case(ctx: Ctx, case: dict, stats: bool = False):
     # the model the new size (`step W H …`).
     cur = {"w": w, "h": h, "base": 0}
     if backend == "tmux":
-        if any(op["op"] == "resize" for op in case["ops"]):
+        if any(op["op"] in ("resize", "winch") for op in case["ops"]):
             raise ToolFailure("histories with a resize run on the pty backend only")
         pt = _tmux_term(w, h)
         pt.fresh(force_placeholders=bool(case.get("force")))
@@ -386,6 +386,20 @@ def eval_case(ctx: Ctx, case: dict, stats: bool = False):
                 pt.resize(op["w"], op["h"])
                 w, h = op["w"], op["h"]
                 cur.update(w=w, h=h, base=len(pt.log))
+            if op["op"] == "winch":
+                # The window size changes and the application calls nothing (no reset()).  What a terminal does with its
+                # cursor and content then is its own business, so nothing is judged at this step; the generator follows
+                # every winch by an absolute move with both coordinates on a blank, margin-free screen, after which the
+                # terminal is again a fresh specification terminal of the new size fed with the bytes written since.
+                if not pt.wait_seen():
+                    raise ToolFailure("pty master did not receive everything that was written")
+                if stats:
+                    ctx.count("winch:" + ("grow" if op["w"] >= w and op["h"] >= h else
+                                          "shrink" if op["w"] <= w and op["h"] <= h else "mixed"))
+                pt.resize(op["w"], op["h"])
+                w, h = op["w"], op["h"]
+                cur.update(w=w, h=h, base=len(pt.log))
+                continue
             base = cur["base"]
             before = bytes(pt.log[base:])
             if case.get("buffered") and backend == "pty":
@@ -961,6 +975,18 @@ def structured_resize():
         case("resize-send", [R0, {"op": "mv", "right": w + 1, "down": h + 1}, rz, {"op": "mva", "col": max(0, w2 - 2), "row": max(0, h2 - 1)},
                              {"op": "send", "kind": "put", "virtual": None, "force": True, "id": ID, "pid": None, "rand": 4242, "rows": 2, "cols": 3,
                               "C": None}, {"op": "getposT"}], force=True)
+        # the size changes and the application does NOT reset: the next absolute move (both coordinates), and every move
+        # after it, must be clamped by the size in force now, not by the one seen at an earlier call
+        wz = {"op": "winch", "w": w2, "h": h2}
+        wback = {"op": "winch", "w": w, "h": h}
+        case("winch-abs", [R0, {"op": "mv", "right": 1, "down": 1}, wz, {"op": "mva", "col": mw + 3, "row": mh + 3}, {"op": "getposT"},
+                           {"op": "mv", "left": 1, "up": 1}, {"op": "mva", "col": max(0, nw - 1), "row": max(0, nh - 1)}, {"op": "mv", "right": 2, "down": 2}])
+        case("winch-rel", [R0, {"op": "mva", "col": w - 1, "row": h - 1}, wz, {"op": "mva", "col": 0, "row": 0}, {"op": "mv", "right": mw + 5},
+                           {"op": "mv", "down": mh + 5}, {"op": "getposT"}, {"op": "mv", "left": 1, "up": 1}])
+        case("winch-twice", [R0, {"op": "mv", "right": w + 2}, wz, {"op": "mva", "col": w2 - 1, "row": h2 - 1}, {"op": "mv", "right": 1, "down": 1}, wback,
+                             {"op": "mva", "pos": [mw, mh]}, {"op": "mv", "left": 1}, {"op": "getposT"}])
+        case("winch-put", [R0, {"op": "mv", "right": 1}, wz, {"op": "mva", "col": max(0, w2 - 2), "row": max(0, h2 - 2)},
+                           {"op": "put", "id": ID + 0x770000, "pid": 0, "rows": 3, "cols": 4, "C": None}, {"op": "getposT"}], force=True)
         case("resize-buffered", [R0, {"op": "mv", "right": 1}, {"op": "write", "hex": b"ab".hex()}, rz, {"op": "mva", "col": w2 - 1, "row": h2 - 1}, {"op": "getpos"},
                                  {"op": "mv", "right": 1, "down": 1}], buffered=True)
     return out
